@@ -56,7 +56,7 @@ fn spec(t: Tier) -> Spec {
     Spec {
         id: "C19",
         level: "model_checking",
-        rule: format!("every history of <= {} child outcomes over {{exit 0,1,2,125,255; SIGTERM, SIGKILL; exec failing with ENOENT, EACCES, ENOEXEC, ENOTDIR}} is injected (hook H2) into the real xargs_main run with -n1 (and -n2) over enough input; exit status and the number of invocations started must equal the reference function (0 / 123 / 124 / 125 / 126 / 127, stop at once, continue past 1..125); state = (sticky failed flag from hook H3 | terminated), transitions = outcomes; own errors (bad option values, unterminated quote, argument too long) must give 1; real-children slice: histories <= 3 over {{0,1,255,SIGTERM,SIGKILL,unlink-self,chmod-self}} with a real recorder child must give the same statuses", bounds(t)),
+        rule: format!("every history of <= {} child outcomes over {{exit 0,1,2,125,255; SIGTERM, SIGKILL; exec failing with ENOENT, EACCES, ENOEXEC, ENOTDIR}} is injected (hook H2) into the real xargs_main run with -n1 (and -n2) over enough input; exit status and the number of invocations started must equal the reference function (0 / 123 / 124 / 125 / 126 / 127, stop at once, continue past 1..125); state = (sticky failed flag from hook H3 | terminated), transitions = outcomes; scale slice: histories of 300 and 1000 invocations, successful except for each outcome at the first, second, 150th, 256th, 257th, last-but-one and last position, combined with a second failure (exit 1 early, exit 255 last, exit 3 at #260); own errors (bad option values, unterminated quote, argument too long) must give 1; real-children slice: histories <= 3 over {{0,1,255,SIGTERM,SIGKILL,unlink-self,chmod-self}} with a real recorder child must give the same statuses", bounds(t)),
         bound: json!({"history_len": bounds(t), "outcomes": OUTCOMES.iter().map(|o| oname(*o)).collect::<Vec<_>>()}),
         assumptions: vec!["child statuses 126..254 are not judged".into()],
         shards: 0,
@@ -167,6 +167,33 @@ fn run(ctx: &mut Ctx) {
         }
     }
     let _ = total;
+    // scale: histories of 300 and 1000 invocations, all successful except one or two outcomes at
+    // the first, a middle, the 256th/257th and the last position
+    let mut job = 0u64;
+    for n in [300usize, 1000] {
+        for o1 in OUTCOMES {
+            for p1 in [0usize, 1, 149, 255, 256, n - 2, n - 1] {
+                for (o2, p2) in [(Outcome::Exit(0), 0usize), (Outcome::Exit(1), 2), (Outcome::Exit(255), n - 1), (Outcome::Exit(3), 260)] {
+                    job += 1;
+                    if job % ctx.nshards != ctx.shard {
+                        continue;
+                    }
+                    let mut h = vec![Outcome::Exit(0); n];
+                    h[p2] = o2;
+                    h[p1] = o1;
+                    let got = run_history(&file, &h, 1);
+                    ctx.rep.evaluations += 1;
+                    ctx.rep.nontrivial += 1;
+                    ctx.rep.transitions += n as u64;
+                    ctx.rep.count("scale_histories", 1);
+                    if let Some((sig, detail)) = judge(&h, &got) {
+                        let short: String = detail.chars().rev().take(400).collect::<String>().chars().rev().collect();
+                        ctx.rep.violation(&sig, format!("long history: {n} invocations, {} at #{p1}, {} at #{p2}: ...{short}", oname(o1), oname(o2)), json!({"prop":"C19","per":1,"history":h.iter().map(|o| oname(*o)).collect::<Vec<_>>()}));
+                    }
+                }
+            }
+        }
+    }
     ctx.rep.states = states.len() as u64;
     if ctx.shard == 0 {
         own_errors(ctx);
